@@ -65,6 +65,7 @@ type Module struct {
 	Broken  bool
 	Deleted bool
 	Salt    int // varies the body without changing its length class
+	Note    int // a plain comment at the top (comment-only edits: output unchanged, source map changes)
 }
 
 type Pkg struct {
@@ -367,6 +368,9 @@ func (p *Project) RenderModule(m *Module) string {
 	jsx := m.Kind == "jsx" || m.Kind == "tsx"
 	cjs := m.Kind == "cjs"
 	var sb strings.Builder
+	if m.Note > 0 {
+		fmt.Fprintf(&sb, "// note %d\n", m.Note)
+	}
 	if m.Feat&FeatLegal != 0 {
 		fmt.Fprintf(&sb, "/*! legal comment of module %d */\n", m.ID)
 	}
